@@ -61,6 +61,9 @@ type Op struct {
 	Fresh   bool   `json:"fresh,omitempty"`
 	Doc     int    `json:"doc,omitempty"`
 	Cold    bool   `json:"cold,omitempty"`
+	// reopen: the saved package is re-written as another producer writes its notes parts and numbering part
+	// before it is opened (foreignparts.go); nil = the library's own bytes
+	Foreign *Dialect `json:"foreign,omitempty"`
 }
 
 type Case struct {
@@ -155,6 +158,9 @@ type state struct {
 	// ids of the live notes this document did not add itself since it exists in its present form:
 	// fromFile = they were in the file it was opened from, inherited = they came with the document it was rendered from
 	fnFromFile, enFromFile, fnInherited, enInherited map[string]bool
+	// ids of the special entries (separator, continuation...) of the notes parts of the file the document was
+	// opened from, when another producer wrote it: they are not notes, removing them is removing an unknown id
+	fnSpecial, enSpecial []string
 }
 
 type handle struct {
@@ -559,6 +565,16 @@ func (s *state) doNote(op Op) {
 		case "removed":
 			if len(*removed) > 0 {
 				id, kind = (*removed)[op.Sel%len(*removed)], "removed"
+			}
+		case "special":
+			sp := s.enSpecial
+			if foot {
+				sp = s.fnSpecial
+			}
+			if len(sp) > 0 {
+				id, kind = sp[op.Sel%len(sp)], "special"
+			} else {
+				id = "-1" // the separator entry the library writes itself
 			}
 		}
 		if _, live := model[id]; live && kind != "live" {
@@ -997,6 +1013,9 @@ func (s *state) doReopen(op Op) {
 		}
 	}
 	b := sn.raw
+	if op.Foreign != nil {
+		b = s.foreignBytes(sn, op.Foreign)
+	}
 	var err error
 	if op.Fresh {
 		document.VerifResetGlobals()
